@@ -63,6 +63,188 @@ unsafe impl lock_api::RawMutex for RawMutex {
     }
 }
 
+impl RawMutex {
+    /// Release without a scheduling point (the caller blocks right afterwards: `Condvar::wait`
+    /// must release the mutex and start waiting in one step).
+    fn unlock_quietly(&self) {
+        self.locked.store(false, Ordering::Release);
+        if let Some((sim, _)) = current() {
+            sim.wake_lock_waiters(self.addr());
+        }
+    }
+
+    /// Try to take the lock until simulated time `deadline`.
+    fn lock_until(&self, deadline: u64) -> bool {
+        match current() {
+            Some((sim, me)) if !suspended() => {
+                sim.yield_point(me, Kind::LockAcquire, true);
+                loop {
+                    if !self.locked.swap(true, Ordering::Acquire) {
+                        return true;
+                    }
+                    if sim.now_ns() >= deadline {
+                        return false;
+                    }
+                    sim.probe("mutex_contended");
+                    let _ = sim.wait_on(me, self.addr(), None, Some(deadline));
+                }
+            }
+            _ => {
+                let t0 = std::time::Instant::now();
+                while self.locked.swap(true, Ordering::Acquire) {
+                    if t0.elapsed() > std::time::Duration::from_secs(1) {
+                        return false;
+                    }
+                    std::thread::yield_now();
+                }
+                true
+            }
+        }
+    }
+}
+
+/// Simulated time left until a `std::time::Instant` (std's clocks read the simulated clock on a
+/// simulated thread, so the difference is simulated time).
+fn deadline_of_instant(t: std::time::Instant) -> u64 {
+    let left = t.saturating_duration_since(std::time::Instant::now());
+    crate::sched::now_ns().saturating_add(left.as_nanos().min(u64::MAX as u128) as u64)
+}
+
+fn deadline_of_duration(d: std::time::Duration) -> u64 {
+    crate::sched::now_ns().saturating_add(d.as_nanos().min(u64::MAX as u128) as u64)
+}
+
+unsafe impl lock_api::RawMutexFair for RawMutex {
+    unsafe fn unlock_fair(&self) {
+        // every release wakes all waiters and is followed by a scheduling point; which of them (or
+        // the releasing thread) gets the lock next is the scheduler's choice in both variants
+        lock_api::RawMutex::unlock(self)
+    }
+}
+
+unsafe impl lock_api::RawMutexTimed for RawMutex {
+    type Duration = std::time::Duration;
+    type Instant = std::time::Instant;
+    fn try_lock_for(&self, timeout: Self::Duration) -> bool {
+        self.lock_until(deadline_of_duration(timeout))
+    }
+    fn try_lock_until(&self, timeout: Self::Instant) -> bool {
+        self.lock_until(deadline_of_instant(timeout))
+    }
+}
+
+/// `parking_lot::Condvar` on the simulator's wait queues.
+#[derive(Default)]
+pub struct Condvar {
+    /// number of threads waiting (what `notify_*` report)
+    waiting: AtomicUsize,
+}
+
+#[derive(Clone, Copy, Debug, PartialEq, Eq)]
+pub struct WaitTimeoutResult(bool);
+
+impl WaitTimeoutResult {
+    pub fn timed_out(&self) -> bool {
+        self.0
+    }
+}
+
+impl Condvar {
+    pub const fn new() -> Condvar {
+        Condvar { waiting: AtomicUsize::new(0) }
+    }
+
+    fn addr(&self) -> usize {
+        self as *const _ as usize
+    }
+
+    fn wait_inner<T: ?Sized>(&self, guard: &mut MutexGuard<'_, T>, deadline: Option<u64>) -> bool {
+        let raw: &RawMutex = unsafe { MutexGuard::mutex(guard).raw() };
+        match current() {
+            Some((sim, me)) if !suspended() => {
+                self.waiting.fetch_add(1, Ordering::SeqCst);
+                // release and enqueue without a scheduling point in between: no notification
+                // can fall into the gap
+                raw.unlock_quietly();
+                sim.probe("condvar_wait");
+                let timed_out = sim.wait_on(me, self.addr(), None, deadline).unwrap_or(false);
+                self.waiting.fetch_sub(1, Ordering::SeqCst);
+                lock_api::RawMutex::lock(raw);
+                timed_out
+            }
+            _ => {
+                // outside a simulation: give way once (spurious wake-ups are allowed)
+                unsafe { lock_api::RawMutex::unlock(raw) };
+                std::thread::yield_now();
+                lock_api::RawMutex::lock(raw);
+                false
+            }
+        }
+    }
+
+    pub fn wait<T: ?Sized>(&self, guard: &mut MutexGuard<'_, T>) {
+        self.wait_inner(guard, None);
+    }
+
+    pub fn wait_for<T: ?Sized>(&self, guard: &mut MutexGuard<'_, T>, timeout: std::time::Duration) -> WaitTimeoutResult {
+        WaitTimeoutResult(self.wait_inner(guard, Some(deadline_of_duration(timeout))))
+    }
+
+    pub fn wait_until<T: ?Sized>(&self, guard: &mut MutexGuard<'_, T>, timeout: std::time::Instant) -> WaitTimeoutResult {
+        WaitTimeoutResult(self.wait_inner(guard, Some(deadline_of_instant(timeout))))
+    }
+
+    pub fn wait_while<T: ?Sized, F: FnMut(&mut T) -> bool>(&self, guard: &mut MutexGuard<'_, T>, mut condition: F) {
+        while condition(&mut **guard) {
+            self.wait(guard);
+        }
+    }
+
+    pub fn notify_one(&self) -> bool {
+        match current() {
+            Some((sim, me)) => {
+                let n = sim.futex_wake(self.addr(), 1);
+                if !suspended() {
+                    sim.yield_point(me, Kind::LockRelease, true);
+                }
+                n > 0
+            }
+            None => false,
+        }
+    }
+
+    pub fn notify_all(&self) -> usize {
+        match current() {
+            Some((sim, me)) => {
+                let n = sim.futex_wake(self.addr(), usize::MAX);
+                if !suspended() {
+                    sim.yield_point(me, Kind::LockRelease, true);
+                }
+                n
+            }
+            None => 0,
+        }
+    }
+}
+
+impl std::fmt::Debug for Condvar {
+    fn fmt(&self, f: &mut std::fmt::Formatter<'_>) -> std::fmt::Result {
+        f.pad("Condvar { .. }")
+    }
+}
+
+/// Thread identity for `lock_api::ReentrantMutex`.
+pub struct RawThreadId;
+
+unsafe impl lock_api::GetThreadId for RawThreadId {
+    #[allow(clippy::declare_interior_mutable_const)]
+    const INIT: Self = RawThreadId;
+    fn nonzero_thread_id(&self) -> std::num::NonZeroUsize {
+        thread_local!(static KEY: u8 = const { 0 });
+        KEY.with(|k| std::num::NonZeroUsize::new(k as *const u8 as usize).expect("thread-local address"))
+    }
+}
+
 const WRITER: usize = 1;
 const READER: usize = 2;
 
@@ -202,6 +384,80 @@ unsafe impl lock_api::RawRwLock for RawRwLock {
 
     fn is_locked(&self) -> bool {
         self.state.load(Ordering::Relaxed) != 0
+    }
+}
+
+impl RawRwLock {
+    fn lock_shared_until(&self, deadline: u64) -> bool {
+        match current() {
+            Some((sim, me)) if !suspended() => {
+                sim.yield_point(me, Kind::RwShared, true);
+                loop {
+                    if self.try_shared() {
+                        return true;
+                    }
+                    if sim.now_ns() >= deadline {
+                        return false;
+                    }
+                    let _ = sim.wait_on(me, self.addr(), None, Some(deadline));
+                }
+            }
+            _ => self.try_shared_cas(),
+        }
+    }
+
+    fn lock_exclusive_until(&self, deadline: u64) -> bool {
+        match current() {
+            Some((sim, me)) if !suspended() => {
+                sim.yield_point(me, Kind::RwExclusive, true);
+                loop {
+                    if self.try_exclusive() {
+                        return true;
+                    }
+                    if sim.now_ns() >= deadline {
+                        return false;
+                    }
+                    let _ = sim.wait_on(me, self.addr(), None, Some(deadline));
+                }
+            }
+            _ => self.state.compare_exchange(0, WRITER, Ordering::Acquire, Ordering::Relaxed).is_ok(),
+        }
+    }
+}
+
+unsafe impl lock_api::RawRwLockFair for RawRwLock {
+    unsafe fn unlock_shared_fair(&self) {
+        lock_api::RawRwLock::unlock_shared(self)
+    }
+    unsafe fn unlock_exclusive_fair(&self) {
+        lock_api::RawRwLock::unlock_exclusive(self)
+    }
+}
+
+unsafe impl lock_api::RawRwLockTimed for RawRwLock {
+    type Duration = std::time::Duration;
+    type Instant = std::time::Instant;
+    fn try_lock_shared_for(&self, timeout: Self::Duration) -> bool {
+        self.lock_shared_until(deadline_of_duration(timeout))
+    }
+    fn try_lock_shared_until(&self, timeout: Self::Instant) -> bool {
+        self.lock_shared_until(deadline_of_instant(timeout))
+    }
+    fn try_lock_exclusive_for(&self, timeout: Self::Duration) -> bool {
+        self.lock_exclusive_until(deadline_of_duration(timeout))
+    }
+    fn try_lock_exclusive_until(&self, timeout: Self::Instant) -> bool {
+        self.lock_exclusive_until(deadline_of_instant(timeout))
+    }
+}
+
+// readers never wait for queued writers in this lock, so a recursive read lock is a read lock
+unsafe impl lock_api::RawRwLockRecursive for RawRwLock {
+    fn lock_shared_recursive(&self) {
+        lock_api::RawRwLock::lock_shared(self)
+    }
+    fn try_lock_shared_recursive(&self) -> bool {
+        lock_api::RawRwLock::try_lock_shared(self)
     }
 }
 
